@@ -145,7 +145,9 @@ DecTimestamp(b) ==
 
 DecDecimal(b) ==
     IF Len(b) < 5 THEN Bad
-    ELSE LET n == DecOfWire(b[1], Slice(b, 1, 5)) IN Got(5, MkDec(n[1], n[2], n[3]))
+    \* the as-written form is kept (scale = the scale octet, digits of the unscaled value): a decoded decimal
+    \* re-encodes with the same scale; equality (SameValue) is by value
+    ELSE LET x == FromTwos(Slice(b, 1, 5)) IN Got(5, MkDec(x.neg, DigitsOfMag(x.mag), 0 - b[1]))
 
 RECURSIVE DecVal(_), DecTableBody(_, _, _), DecArrayBody(_, _, _)
 
